@@ -102,7 +102,7 @@ class ConvolveV2(Contract):
     whose names differ from the cube's is refused."""
     name = CONV + '_convolve_model_dir_2'
     properties = ('C07', 'C06', 'C08')
-    variants = ('two_filters',)
+    variants = ('two_filters', 'two_filters/Jy')        # (the cube stored in mJy / in Jy)
     assume_pre_of = (CUBE + 'BaseCube.read',)
 
     def setup(self, c, variant):
@@ -110,7 +110,8 @@ class ConvolveV2(Contract):
         M, A, W = c.int('n_models'), c.int('n_ap'), c.int('n_wav')
         c.assume([M >= 1, A >= 1, W >= 2])
         self.cube = dict(wav=c.array('cube_wav', (W,)), ap=c.array('cube_ap', (A,)), val=c.array('cube_val', (M, A, W)), unc=c.array('cube_unc', (M, A, W)),
-                         names=c.array('cube_names', (M,), kind='int'), valid=c.array('cube_valid', (M,), kind='int'), dist=c.real('cube_dist_cm'))
+                         names=c.array('cube_names', (M,), kind='int'), valid=c.array('cube_valid', (M,), kind='int'), dist=c.real('cube_dist_cm'),
+                         bunit=U['Jy'] if variant.endswith('/Jy') else U['mJy'])
         c.interp.package_cube = self.cube
         c.interp.package_conf = {'name': 'pkg', 'version': 2}
         self.par_names = c.array('par_name', (M,), 'int')
